@@ -10,6 +10,7 @@ from ..report import Ctx
 
 TRS = "graphiq/solvers/time_reversed_solver.py"
 HEIGHT = "graphiq/backends/stabilizer/functions/height.py"
+STABF_ = "graphiq/backends/stabilizer/functions/stabilizer.py"
 
 EXPLANATION = (
     "Narrow structural claim. In TimeReversedSolver.solve the main loop runs j over range(n_photon, 0, -1) and calls "
@@ -24,6 +25,8 @@ EXPLANATION = (
 
 
 def run(ctx: Ctx) -> None:
+    from ..rules import echelon as _echelon
+    _echelon.arm(ctx)
     repo = ctx.repo
     m = repo.module(TRS)
     sv = repo.anchor(TRS, "TimeReversedSolver.solve")
@@ -255,6 +258,18 @@ def _anc(n):
 
 
 KNOCKOUTS = [
+    Knockout("rref-finder-skips-pivot-row", STABF_, sub_once("    for row_i in range(pivot[0], n_qubits):\n        if x_matrix[row_i, pivot[1]] == 1 and z_matrix[row_i, pivot[1]] == 0:", "    for row_i in range(pivot[0] + 1, n_qubits):\n        if x_matrix[row_i, pivot[1]] == 1 and z_matrix[row_i, pivot[1]] == 0:"), "rref.classify", "row range"),
+    Knockout("rref-finder-y-as-z", STABF_, sub_once("        elif x_matrix[row_i, pivot[1]] == 1 and z_matrix[row_i, pivot[1]] == 1:\n            pauli_y_list.append(row_i)", "        elif x_matrix[row_i, pivot[1]] == 1 and z_matrix[row_i, pivot[1]] == 1:\n            pauli_z_list.append(row_i)"), "rref.classify", "misfiles"),
+    Knockout("rref-dispatch-only-z-uses-y", STABF_, sub_once("        return _process_one_pauli(tableau, pivot, pauli_z_list)", "        return _process_one_pauli(tableau, pivot, pauli_y_list)"), "rref.dispatch", "Z:"),
+    Knockout("rref-dispatch-yz-as-xz", STABF_, sub_once('        return _process_two_pauli(tableau, pivot, pauli_list_dict, "y", "z")', '        return _process_two_pauli(tableau, pivot, pauli_list_dict, "x", "z")'), "rref.dispatch", "YZ:"),
+    Knockout("rref-dispatch-condition-weakened", STABF_, sub_once("    elif pauli_x_list and (not pauli_y_list) and (not pauli_z_list):  # only X", "    elif pauli_x_list and (not pauli_y_list):  # only X"), "rref.dispatch", "XZ:"),
+    Knockout("rref-three-kinds-one-multiplication", STABF_, sub_once("            tableau = tab_row_sum(tableau, pivot[0] + 1, row_k)\n", ""), "rref.dispatch", "XYZ:"),
+    Knockout("rref-step-direction", STABF_, sub_once("    for row_i in pauli_list:\n        # multiplying rows with similar pauli to eliminate them\n        tableau = tab_row_sum(tableau, pivot[0], row_i)", "    for row_i in pauli_list:\n        # multiplying rows with similar pauli to eliminate them\n        tableau = tab_row_sum(tableau, row_i, pivot[0])"), "rref.step", "_process_one_pauli"),
+    Knockout("rref-step-second-kind-from-first-pivot", STABF_, sub_once("        tableau = tab_row_sum(tableau, pivot[0] + 1, row_j)", "        tableau = tab_row_sum(tableau, pivot[0], row_j)"), "rref.step", "_process_two_pauli"),
+    Knockout("rref-step-advance", STABF_, sub_nth("    pivot = [pivot[0] + 2, pivot[1] + 1]\n    return tableau, pivot", "    pivot = [pivot[0] + 1, pivot[1] + 1]\n    return tableau, pivot", 0), "rref.step", "advance"),
+    Knockout("rref-loop-stops-early", STABF_, sub_once("    while pivot[0] <= n_qubits - 1 and pivot[1] <= n_qubits - 1:", "    while pivot[0] < n_qubits - 1 and pivot[1] <= n_qubits - 1:"), "rref.loop", "loop condition"),
+    Knockout("leftmost-takes-last", HEIGHT, sub_once("    return nonzero[0]", "    return nonzero[-1]"), "height.leftmost", "first"),
+    Knockout("leftmost-x-only", HEIGHT, sub_once("    row_sum = tableau.x_matrix[generator_index] + tableau.z_matrix[generator_index]", "    row_sum = tableau.x_matrix[generator_index]"), "height.leftmost", "union"),
     Knockout("rref-any-over-indices", "graphiq/backends/stabilizer/functions/stabilizer.py", sub_once("    if not (pauli_x_list or pauli_y_list or pauli_z_list):", "    if not any(pauli_x_list + pauli_y_list + pauli_z_list):"), "falsy.zero", "truthiness"),
     Knockout("emitter-sorted-subgraph", "graphiq/utils/relabel_module.py", sub_once("        n_emit = height_max(graph=g)\n", "        n_emit = height_max(graph=g)\n        n_emit = max(height_max(graph=g.subgraph(c)) for c in nx.connected_components(g))\n"), "height.formula", "not taken from the whole graph"),
     Knockout("height-max-weak-cache", HEIGHT, sub_once("def height_max(x_matrix=None, z_matrix=None, graph=None):", "import weakref\n_HM = weakref.WeakKeyDictionary()\n\n\ndef height_max_cached(graph):\n    if graph in _HM:\n        return _HM[graph]\n    _HM[graph] = height_max(graph=graph)\n    return _HM[graph]\n\n\ndef height_max(x_matrix=None, z_matrix=None, graph=None):"), "memo.sound", "key does not determine"),
